@@ -34,7 +34,22 @@ def generate(rng, tier):
                  'gb.frames 0 2', 'gb.obs 0']
         cases.append(('fr%d' % n, lines))
         n += 1
+    # every component keeps its schedule whatever the CPU is doing: STOP, HALT, LCD off, DMA in progress
+    for prog, pre in [([0x10, 0x00, 0x18, 0xfe], []), ([0x76, 0x18, 0xfd], []), ([0x18, 0xfe], ['gb.w 0 65344 0']),
+                      ([0x18, 0xfe], ['gb.w 0 65350 192']), ([0x10, 0x00, 0x18, 0xfe], ['gb.w 0 65344 0'])]:
+        lines = ['gb.newloop 0 16 1 3 %d' % rng.randrange(2), 'gb.w 0 0 10', 'gb.w 0 16384 8']
+        for i, b in enumerate(prog):
+            lines.append('gb.w 0 %d %d' % (0xc000 + i, b))
+        lines += ['gb.set 0 1 2 3 4 5 0 6 7 57343 49152', 'gb.w 0 65287 %d' % rng.choice([4, 5, 6, 7])] + pre
+        lines += ['gb.cyc 0 %d' % rng.randrange(1, 3000), 'gb.obs 0', 'gb.frames 0 1', 'gb.obs 0', 'gb.frames 0 2', 'gb.obs 0',
+                  'gb.btn 0 %d 1' % rng.randrange(8), 'gb.frames 0 1', 'gb.obs 0']
+        cases.append(('fr%d' % n, lines))
+        n += 1
     k = 0
+    for pre in (['gb.w 0 65344 0'], ['gb.w 0 65344 0', 'gb.frames 0 1']):
+        for kk in (1, 2):
+            cases.append(('closeoff%d' % k, ['gb.newloop 0 0 0 0 0 1'] + pre + ['gb.runclose 0 %d' % kk, 'gb.obs 0']))
+            k += 1
     for vid in (0, 1):
         for aud in (0, 1):
             if vid:
